@@ -168,6 +168,26 @@ def dot_sanitiser(facts):
                             o.r.bad(Violation("FLOW-DOT", b.npath, "raw-call", b.file, t["line"],
                                               "graph_fmt calls a user formatting closure directly with the raw formatter (unescaped label)"))
         o.check(root, "FnFmt-sites", root.line, nf >= 2, "%d FnFmt construction(s)" % nf, "expected 2 FnFmt constructions (node and edge labels), found %d" % nf)
+        # node statements print to_index(node.id()): the statement itself and the NodeIndexLabel variant
+        nid = 0
+        for i, j, st in root.stmts():
+            rv = st["rv"]
+            if rv["k"] == "agg" and rv["ak"] == "array" and len(rv["o"]) >= 1:
+                for o_ in rv["o"]:
+                    e = root.expr(o_, 12)
+                    for s in walk_expr(e):
+                        if isinstance(s, tuple) and s[0] == "call" and last_seg(s[1]["path"]).startswith("new_") and s[2]:
+                            e = project(strip_casts(s[2][0]))
+                            if isinstance(e, tuple) and e[0] == "ref":
+                                e = project(e[2])
+                            break
+                    has_ix = any(isinstance(s, tuple) and s[0] == "call" and norm_path(s[1]["path"]) == "visit::NodeIndexable::to_index" for s in walk_expr(e))
+                    has_id = any(isinstance(s, tuple) and s[0] == "call" and norm_path(s[1]["path"]) == "visit::NodeRef::id" for s in walk_expr(e))
+                    if has_ix and has_id:
+                        nid += 1
+        o.check(root, "node-stmt-index", root.line, nid >= 2, "%d node id(s) printed as to_index(node.id()) (statement and NodeIndexLabel)" % nid,
+                "node statements must print to_index(node.id()) (the statement id and the NodeIndexLabel label); found %d such format arguments: "
+                "with an enumerate() counter instead, a graph with vacant indices declares ids that its edge statements do not use" % nid)
         # edge statement order: format arguments array containing to_index(source) ... to_index(target)
         found = False
         for i, j, st in root.stmts():
